@@ -43,8 +43,22 @@ KEYS = ['a', 'b']
 OPS = [('push', k, i) for k in KEYS for i in range(len(ITEMS))] + [('read',)]
 
 
+def _fpv(v):
+    if isinstance(v, Item):
+        return ('I', v.v, v.tag)
+    if isinstance(v, dict):
+        return ('d',) + tuple(sorted((repr(k), _fpv(x)) for k, x in v.items()))
+    if isinstance(v, (list, tuple)):
+        return ('l',) + tuple(_fpv(x) for x in v)
+    if isinstance(v, (set, frozenset)):
+        return ('s',) + tuple(sorted(_fpv(x) for x in v))
+    return ('v', repr(v))
+
+
 def canon(h):
-    return (h._size, tuple(sorted((k, tuple((it.v, it.tag) for it in q)) for k, q in h._result.items())))
+    # EVERY instance attribute (not only the two the current implementation has): a field the canonical form does not
+    # see would merge states with different futures (exact heap layout per key, in list order)
+    return tuple(sorted((k, _fpv(v)) for k, v in vars(h).items()))
 
 
 def snapshot(res):
